@@ -24,6 +24,9 @@ func checkC16(c *Ctx) {
 	r163(c)
 	r164(c)
 	r165(c)
+	// the redirect is built from the client's URL: nothing rewrites the request before the TLS policy sees it (shared
+	// with C13)
+	rNoURLRewritingWrappers(c, "R16.6 no-url-rewriting-wrappers")
 }
 
 func r161(c *Ctx) {
